@@ -244,6 +244,7 @@ def lenient_shapes():
     D = lambda *c: ("dyn", list(c))
     FL = lambda g: ("flip", g)
     N = lambda g, *c: ("unless", g, list(c))
+    W = lambda g, *c: ("when", g, list(c))
     return [
         # a loading boundary listed BEFORE the boundary whose task removes it
         [D(N(1, S(1, A(2, T("a"))))), S(2, FL(1), T("c"))],
@@ -251,6 +252,12 @@ def lenient_shapes():
         [N(1, S(1, A(2, T("a"))), S(3, A(3, T("b")))), S(2, FL(1))],
         # ... and after it
         [S(2, FL(1), T("c")), D(N(1, S(1, A(2, T("a")))))],
+        # a pending boundary replaced by another pending boundary, by its own task / by a task of a third boundary: "nothing is loading"
+        # is true for a moment in the middle of the update
+        [N(1, S(1, FL(1), T("a"))), W(1, S(2, A(2, T("b"))))],
+        [E("div", N(1, S(1, FL(1)))), E("p", W(1, S(2, A(2, T("b"))), T("t")))],
+        [W(1, S(2, A(2, T("b")))), N(1, S(1, FL(1), T("a")))],
+        [S(3, FL(1)), N(1, S(1, A(3, T("a")))), W(1, S(2, A(2, T("b"))))],
         [S(2, FL(1)), N(1, S(1, S(3, A(2, T("a")))))],
     ]
 
